@@ -108,7 +108,7 @@ def file_level(ctx, cases, counts):
         rp = dict(kind="file-level", scale=kind, wiring=wiring, properties={k: (str(x) if isinstance(x, str) else float(x)) for k, x in P.items()}, raw=raw, V=v, expected=expect)
         try:
             with TdmsWriter(buf) as w:
-                w.write_segment([ChannelObject("g", "c", np.array([raw, raw], dtype=np.float64), P)])
+                w.write_segment([ChannelObject("g", "c", np.array([raw * 0.75 + 0.001, raw], dtype=np.float64), P)])
             buf.seek(0)
             che = TdmsFile.read(buf)["g"]["c"]
             raw_before = che.raw_data.tobytes()
@@ -121,10 +121,22 @@ def file_level(ctx, cases, counts):
                 if g2.shape != e2.shape or not np.array_equal(g2, e2, equal_nan=True):
                     out.append(Violation("%s scale (%s wiring): %s on the eagerly read channel gives %r after the first read gave %r" % (kind, wiring, label2, list(g2), list(e2)), rp))
                     break
+            # a result handed out earlier stays what it was when the same channel is scaled again
+            held = che.read_data(1, 1)
+            held_copy = np.array(held)
+            che.read_data(0, 1)
+            if not np.array_equal(np.asarray(held), held_copy, equal_nan=True):
+                out.append(Violation("%s scale (%s wiring): the array returned by read_data(1, 1) changed when read_data(0, 1) was served" % (kind, wiring), rp))
             if che.raw_data.tobytes() != raw_before:
                 out.append(Violation("%s scale (%s wiring): reading the scaled data changed the channel's raw data" % (kind, wiring), rp))
             buf.seek(0)
             with TdmsFile.open(buf) as f:
+                held = f["g"]["c"].read_data(1, 1)
+                held_copy = np.array(held)
+                f["g"]["c"].read_data(0, 1)
+                parts = [c[:] for c in f["g"]["c"].data_chunks()]
+                if not np.array_equal(np.asarray(held), held_copy, equal_nan=True):
+                    out.append(Violation("%s scale (%s wiring): the array returned by a lazy read_data(1, 1) changed when read_data(0, 1) was served" % (kind, wiring), rp))
                 lazy = float(f["g"]["c"][1])
         except Exception as ex:  # noqa
             out.append(Violation("%s scale (%s) through a file raised %s: %s" % (kind, wiring, type(ex).__name__, ex), rp))
